@@ -36,7 +36,14 @@ JCC = {"JLT": "lt", "JEQ": "eq", "JGT": "gt", "JLE": "le", "JNE": "ne", "JGE": "
 BCAST = {"VPBROADCASTD": 4, "VBROADCASTI32X2": 8, "VBROADCASTI32X4": 16, "VPBROADCASTQ": 8, "VPBROADCASTB": 1,
          "VPBROADCASTW": 2, "VBROADCASTI128": 16, "VINSERTI128": 16, "VEXTRACTI128": 16, "VINSERTI32X4": 16,
          "VEXTRACTI32X4": 16, "VINSERTI64X4": 32, "VEXTRACTI64X4": 32, "PINSRQ": 8, "PINSRD": 4, "PINSRB": 1,
-         "PEXTRQ": 8, "PEXTRD": 4, "PEXTRB": 1}
+         "PEXTRQ": 8, "PEXTRD": 4, "PEXTRB": 1, "PEXTRW": 2, "PINSRW": 2,
+         "VPEXTRQ": 8, "VPEXTRD": 4, "VPEXTRB": 1, "VPEXTRW": 2, "VPINSRQ": 8, "VPINSRD": 4, "VPINSRB": 1, "VPINSRW": 2,
+         "VMOVD": 4, "VMOVQ": 8, "MOVD": 4}
+# vector / mask opcodes that write the flags (their register-only forms are NOT pure data flow)
+FLAG_SETTERS = ("PTEST", "VPTEST", "VTESTP", "COMIS", "UCOMIS", "VCOMIS", "VUCOMIS", "KTEST", "KORTEST", "PCMPESTR", "PCMPISTR",
+                "VPCMPESTR", "VPCMPISTR")
+NOT_VECTOR = ("POP", "PUSH", "PAUSE", "PREFETCH")
+KMOV = {"KMOVB": 1, "KMOVW": 2, "KMOVD": 4, "KMOVQ": 8}
 # further SSE / AVX / AVX-512 data-processing opcodes a maintainer may plausibly use: pure data flow (no flags,
 # no data-dependent addressing), memory operand = full vector width unless listed in BCAST
 VEC_MORE = {"VMOVDQU", "VMOVDQA", "VMOVDQA32", "VMOVDQU16", "VMOVUPS", "VMOVUPD", "VMOVAPS", "MOVOU", "MOVOA",
@@ -98,6 +105,8 @@ def split_ops(s):
 
 def classify(op, ops, where):
     """-> dict(cl, fn, a, b, c, w, t) ; a, c = sources, b = destination (Go operand order: last)"""
+    if op.endswith(".Z"):          # zeroing-masking: the unselected destination lanes become zero - same data flow
+        op = op[:-2]
     skip = op in JCC or op in ("JMP", "NOP", "FUNCDATA", "TEXT", "PCDATA", "RET")
     o = [] if skip else [operand(x) for x in ops]
     ins = dict(cl="", fn="", a=NONE, b=NONE, c=NONE, w=0, t=0)
@@ -132,11 +141,15 @@ def classify(op, ops, where):
         ins.update(cl="cmov", a=o[0], b=o[1], w=CMOV[op])
     elif op in SETCC and len(o) == 1:         # a byte of the flags
         ins.update(cl="cmov", a=NONE, b=o[0], w=1)
-    elif op == "KMOVW":
-        ins.update(cl="mov", a=o[0], b=o[1], w=2)
+    elif op in KMOV:
+        ins.update(cl="mov", a=o[0], b=o[1], w=KMOV[op])
     elif op in ("VZEROUPPER", "VZEROALL"):
         ins["cl"] = "nop"
-    elif op in VEC_OK or op in VEC_MORE:
+    elif (op in VEC_OK or op in VEC_MORE
+          or (op[0] in "VPK" and len(o) >= 2 and not op.startswith(FLAG_SETTERS) and not op.startswith(NOT_VECTOR)
+              and not op.startswith("J") and all(x["k"] in ("v", "kr", "i", "r", "rb") for x in o))):
+        # the last clause: a vector / mask opcode that is in no table, in a REGISTER-ONLY form - pure data flow from
+        # the sources to the destination (a memory form would need its footprint, so it stays fail-closed)
         srcs, dst = o[:-1], o[-1]
         mask = [x for x in srcs if x["k"] == "kr"]
         srcs = [x for x in srcs if x["k"] not in ("i", "kr")]
